@@ -319,6 +319,32 @@ pub fn run(ctx: &Ctx, rep: &mut Report) {
         rep.count("long_chains");
         check_seq(&seq, &format!("long:{}", i), rep, false);
     });
+    // very long chains: 1100-6000 operands (tens of KiB; C01 has no length bound), mostly implicit AND with
+    // an occasional operator, an action as the very last operand: any silent cap on a repetition shows as a
+    // truncated tree or a wrongly accepted tail
+    let n_vlong = ctx.pick(1, 150) + 5;
+    par_cases(ctx, "verylong", n_vlong, rep, |i, rep| {
+        let mut r = Rng::for_case(ctx.seed, "verylong", i);
+        let target = 1100 + r.usize(4900);
+        let mut seq: Vec<usize> = vec![];
+        while seq.len() < target {
+            match r.below(40) {
+                0 => seq.push(6),
+                1 => seq.push(3),
+                2 => seq.push(4),
+                _ => {}
+            }
+            seq.push([8, 9, 9, 8, 10][r.usize(5)]);
+        }
+        seq.push(10);
+        if i % 3 == 2 {
+            // a stray word far beyond the first thousand operands: the whole input must be refused
+            let p = seq.len() - 1 - r.usize(40);
+            seq[p] = 1;
+        }
+        rep.count("very_long_chains");
+        check_seq(&seq, &format!("verylong:{}", i), rep, false);
+    });
     let extra = rep.get("nontrivial_by_construction");
     rep.extra.push(("distinct_nontrivial_enumerated".into(), J::Int(extra as i128)));
     if ctx.only.is_none() {
